@@ -63,6 +63,82 @@ def group_ops(B):
     return {k: v for k, v in ops.items() if B.get(k) is not None}
 
 
+FORMS = ["sx", "sparse", "expr"]  # "expr_sum" perturbs the numbers by one rounding and is only used where the map is continuous
+
+
+def eval_form(G, A, kind, fn, args, form):
+    """evaluate fn on elements whose parameters carry the same numbers in another legitimate form:
+    sx        numeric SX instead of DM
+    sparse    SX in which the zero entries are structural zeros
+    expr      the parameter is an expression 0.5 * s of a symbol (evaluated at s = 2 p through a casadi Function)
+    expr_sum  the parameter is s + t with t a second symbol (evaluated at s = p - 1, t = 1)"""
+    mk = (lambda par: G.elem(par)) if kind == "g" else (lambda par: A.elem(par))
+    if form == "sx":
+        return ev(fn(*[mk(ca.SX(ca.DM(p))) for p in args]))
+    if form == "sparse":
+        objs = []
+        for p in args:
+            par = ca.SX(len(p), 1)
+            for i, v in enumerate(p):
+                if v != 0:
+                    par[i] = float(v)
+            objs.append(mk(par))
+        return ev(fn(*objs))
+    syms, objs, vals = [], [], []
+    for i, p in enumerate(args):
+        n = len(p)
+        s_ = ca.SX.sym("s%d" % i, n)
+        if form == "expr":
+            objs.append(mk(0.5 * s_))
+            syms.append(s_)
+            vals.append(ca.DM(2.0 * np.asarray(p, dtype=float)))
+        else:
+            t_ = ca.SX.sym("t%d" % i, n)
+            objs.append(mk(s_ + t_))
+            syms += [s_, t_]
+            vals += [ca.DM(np.asarray(p, dtype=float) - 1.0), ca.DM(np.ones(n))]
+    f = ca.Function("form", syms, [ca.densify(ca.SX(fn(*objs)))])
+    return np.array(f.call(vals)[0], dtype=float)
+
+
+def check_forms(res, B, elems, xs, case, sub, ops_wanted, tol=1e-11, forms=None):
+    """N7: the result does not depend on the form in which the same numbers are supplied (see eval_form)"""
+    G, A = B.G, B.G.algebra
+    ops = {k: v for k, v in group_ops(B).items() if k in ops_wanted}
+    for op, (kinds, fn) in ops.items():
+        if len(set(kinds)) != 1:
+            continue
+        pool = elems if kinds[0] == "g" else xs
+        for i, p in enumerate(pool):
+            args = (p,) if len(kinds) == 1 else (p, pool[(i + 1) % len(pool)])
+            if not all(np.all(np.isfinite(a)) for a in args):
+                continue
+            want = None
+            for form in (forms or FORMS):
+                if form == "sparse" and all(np.all(np.asarray(a) != 0) for a in args):
+                    continue
+                if form == "expr_sum" and maxabs(np.concatenate([np.asarray(a, dtype=float) for a in args])) > 1e6:
+                    continue  # p - 1 + 1 is not p in double for huge components
+                res.count("evaluations")
+                res.count("input_form_calls")
+                try:
+                    with contextlib.redirect_stdout(io.StringIO()):
+                        got = eval_form(G, A, kinds[0], fn, args, form)
+                except NotImplementedError:
+                    continue
+                except Exception as ex:
+                    res.fail(site="%s.%s" % (B.name, op), clause="numeric_api:call_raises", cls="form=" + form, detail=dict(args=[np.asarray(a) for a in args], error="%s: %s" % (type(ex).__name__, str(ex)[:200])),
+                             sub=sub, case=case)
+                    continue
+                if want is None:
+                    want = B.call(op, *args)
+                t = tol if form != "expr_sum" else max(tol, 1e-9)
+                ok, err = _same(got.reshape(want.shape) if got.size == want.size else got, want, t)
+                if not ok:
+                    res.fail(site="%s.%s" % (B.name, op), clause="numeric_api:result_independent_of_input_form", cls="form=" + form,
+                             detail=dict(op=op, args=[np.asarray(a) for a in args], got=got, want=want, err=err), sub=sub, case=case)
+
+
 def check_history(res, B, elems, xs, case, sub, targets, preludes, tol=1e-11):
     """N6: the result of an operation on an element object does not depend on which other operations were called on that object before
     (lazily cached or silently rewritten per-object state).  For every element, every target op and every prelude op (same argument
